@@ -14,6 +14,7 @@
 //!   staller K off=N mode=stop|close|garbage   raw client that misbehaves after N handshake bytes -> s#j=started
 //!   moninstall                       monitor() is called NOW (for the first time, or again: the new receiver replaces the old one)
 //!   finish J garbage|close|good      a `staller ... mode=stop` client goes on: 97 junk octets / closes / sends the rest of a valid handshake -> f#J=done
+//!   hs J                             the library's greeting + READY as raw connection J received them -> h#J=HEX
 //!   xchg J                           one message over raw connection J (direction by socket type) -> x#J=ok|fail:<why>
 //!   bigxchg J SIZE                   raw peer J sends one message with a SIZE-byte frame, recv awaited in the root future -> X#J=ok|fail:<why>
 //!   flood N SIZE                     the socket sends N messages of SIZE octets while no raw peer reads -> fl=ok|fl=fail:<why>
@@ -128,6 +129,7 @@ struct Raw {
     s: RawStream,
     extra: Vec<u8>, // bytes read beyond the handshake
     ready: bool,    // completed its handshake as a well-behaved peer
+    hs: Vec<u8>,    // the library's greeting + READY as this raw peer received them
 }
 
 pub fn run(args: &[&str]) -> String {
@@ -271,7 +273,7 @@ async fn scenario(head: Vec<String>, ops: Vec<Vec<String>>) -> Vec<String> {
                             (Ok(()), Ok(got)) => {
                                 let need = 64 + 2 + got[65] as usize;
                                 out.push(format!("c#{}=ok", j));
-                                raws.push(Some(Raw { s, extra: got[need..].to_vec(), ready: true }));
+                                raws.push(Some(Raw { s, extra: got[need..].to_vec(), ready: true, hs: got[..need].to_vec() }));
                             }
                             (_, Err(e)) => {
                                 out.push(format!("c#{}=hserr:{}", j, e));
@@ -313,7 +315,7 @@ async fn scenario(head: Vec<String>, ops: Vec<Vec<String>>) -> Vec<String> {
                     s.write_all(&handshake_bytes(&pt, None)).await.ok()?;
                     let got = read_lib_handshake(&mut s).await.ok()?;
                     let need = 64 + 2 + got[65] as usize;
-                    Some((Raw { s, extra: got[need..].to_vec(), ready: true }, l))
+                    Some((Raw { s, extra: got[need..].to_vec(), ready: true, hs: got[..need].to_vec() }, l))
                 });
                 let s = sock.as_mut().expect("socket gone");
                 let r = sock_connect(s, &format!("tcp://127.0.0.1:{}", port)).await;
@@ -350,11 +352,11 @@ async fn scenario(head: Vec<String>, ops: Vec<Vec<String>>) -> Vec<String> {
                             }
                             "garbage" => {
                                 let _ = s.write_all(&[0x13u8; 97]).await;
-                                raws.push(Some(Raw { s, extra: vec![], ready: false }));
+                                raws.push(Some(Raw { s, extra: vec![], ready: false, hs: vec![] }));
                             }
                             _ => {
                                 stall_off.insert(j, n);
-                                raws.push(Some(Raw { s, extra: vec![], ready: false }))
+                                raws.push(Some(Raw { s, extra: vec![], ready: false, hs: vec![] }))
                             }
                         }
                         out.push(format!("s#{}=started", j));
@@ -555,6 +557,11 @@ async fn scenario(head: Vec<String>, ops: Vec<Vec<String>>) -> Vec<String> {
             "dropraws" => {
                 raws.clear();
                 listeners.clear();
+            }
+            "hs" => {
+                let j: usize = t[1].parse().unwrap();
+                let h = raws.get(j).and_then(|r| r.as_ref()).map(|r| hex(&r.hs)).unwrap_or_else(|| "-".to_string());
+                out.push(format!("h#{}={}", j, h));
             }
             "moninstall" => {
                 monitor = Some(sock_monitor(sock.as_mut().unwrap()));
